@@ -12,8 +12,8 @@ export VERIF_REPO="$REPO"
 for d in seeded/${PAT}*; do
   id=$(basename "$d"); prop=${id%%-*}
   [ -f "$d/patch.diff" ] || continue
-  ( cd "$REPO" && git checkout -q -- . && git apply "$HERE/$d/patch.diff" ) || { echo "$id :: patch does not apply"; continue; }
+  ( cd "$REPO" && git checkout -q -- . && git clean -fdq -- src rsactor-derive tests examples && git apply "$HERE/$d/patch.diff" ) || { echo "$id :: patch does not apply"; continue; }
   out=$(./run.sh quick "$prop" 2>&1); rc=$?
   echo "$id :: rc=$rc :: $(echo "$out" | grep -E "VIOLATION|KNOWN|INFRA" | head -1 | cut -c1-140) | $(echo "$out" | tail -1 | cut -c1-110)"
-  ( cd "$REPO" && git checkout -q -- . )
+  ( cd "$REPO" && git checkout -q -- . && git clean -fdq -- src rsactor-derive tests examples )
 done
